@@ -1,3 +1,3 @@
 SPECIFICATION Spec
-INVARIANTS Emit
+INVARIANTS Emit GrammarAgrees
 CHECK_DEADLOCK FALSE
